@@ -8,8 +8,10 @@ A spec is
    'labels': [leaf index into list(tree[leaf_level]) or -1 = cell not named by the taxonomy],
    'cells_as_int': bool  (tree route lists numeric-looking ids as JSON integers; the code str()s them)
    'x':      {'kind': 'raw'|'log2', 'dtype', 'seed', 'max_count', 'density', 'rows': [row kind per cell]} or {'values': [[...]], 'kind', 'dtype'}
-   'parts':  [ {'route': 'tree'|'columns', 'files': [{'enc', 'rows': [canonical cell indices]}],
-                'rows_at_a_time', 'n_processors'} ... ]      parts[0] is the baseline, the others are re-partitions of the same cells
+   'parts':  [ {'route': 'tree'|'columns'|'rows', 'files': [{'enc', 'rows': [canonical cell indices]}],
+                'rows_at_a_time', 'n_processors', 'tmp_dir': bool} ... ]   parts[0] is the baseline, the others are re-layouts of the same cells
+             routes: 'tree' = file list + taxonomy naming cells; 'columns' = one file, obs label columns (only the labelled cells are in it);
+                     'rows' = one file + taxonomy listing row numbers
    'datasets': None or [dataset index per cell]   (only labelled cells matter) -> per-dataset files -> merge
    'ds_metadata': bool}
 """
@@ -92,8 +94,10 @@ def explicit(spec):
 @st.composite
 def _partition(draw, route, lab_idx, all_idx, max_files=4):
     """one way of laying the cells out in files + run configuration"""
-    if route == 'columns':
-        rows = list(draw(st.permutations(lab_idx))) if draw(st.booleans()) else list(lab_idx)
+    if route in ('columns', 'rows'):
+        # one file: label columns (every cell labelled) or a tree that lists row numbers (unnamed rows allowed)
+        src = lab_idx if route == 'columns' else all_idx
+        rows = list(draw(st.permutations(src))) if draw(st.booleans()) else list(src)
         files = [{'enc': draw(st.sampled_from(['csr', 'csc', 'dense'])), 'rows': rows}]
     else:
         n = len(all_idx)
@@ -110,7 +114,8 @@ def _partition(draw, route, lab_idx, all_idx, max_files=4):
     n_rows = sum(len(f['rows']) for f in files)
     return {'route': route, 'files': files,
             'rows_at_a_time': draw(st.integers(1, n_rows + 2)),
-            'n_processors': draw(st.integers(1, 4))}
+            'n_processors': draw(st.integers(1, 4)),
+            'tmp_dir': draw(st.integers(0, 3)) > 0}
 
 
 @st.composite
@@ -163,7 +168,7 @@ def cases(draw, max_cells=22, max_genes=7, max_leaves=7):
     # ---- partitions
     all_idx = list(range(n))
     lab_idx = [i for i in all_idx if labels[i] >= 0]
-    routes = ['tree', 'tree', 'columns']
+    routes = ['tree', 'tree', 'tree', 'columns', 'columns', 'rows']
     n_parts = draw(st.integers(2, 3))
     parts = [draw(_partition(draw(st.sampled_from(routes)), lab_idx, all_idx)) for _ in range(n_parts)]
     # ---- datasets for the merge
